@@ -91,4 +91,17 @@ C04StepChecks(k, e, s, t, gb) ==
   (IF k = "Begin" THEN
      { Chk("C04", "C04.step.no_request_lingers_into_the_next_block", TRUE, t.amm.queue = 0, "") }
    ELSE {})
+  \cup
+  \* C03 at application level, oracle pools: every hop settled in this step (end-of-block batch, or a swap inside a
+  \* transaction: perpetual / leveraged-LP opens and closes, fee conversions) pays out no more value than it takes in at the
+  \* oracle prices in force when the step began (one base unit of the output allowed), and whatever a recipient receives on
+  \* top of the settled output (the rebalancing bonus) fits in the pool's rebalance treasury
+  (IF k \in {"End", "Tx", "Begin"} /\ "abci" \in DOMAIN e THEN
+     LET H == SelectSeq(e.abci, LAMBDA x : x.type = "token_swapped" /\ x.pool_id \in Pools(s) /\ s.amm.pools[x.pool_id].useOracle
+                                           /\ x.in_denom \in DOMAIN s.oracle.lookupDenom /\ x.out_denom \in DOMAIN s.oracle.lookupDenom
+                                           /\ s.oracle.lookupDenom[x.in_denom] \succ Zero /\ s.oracle.lookupDenom[x.out_denom] \succ Zero)
+         bad == {i \in DOMAIN H : (H[i].out_amt -- One) ** s.oracle.lookupDenom[H[i].out_denom] \succ H[i].in_amt ** s.oracle.lookupDenom[H[i].in_denom]}
+     IN { Chk("C03", "C03.step.oracle_hop_pays_no_more_value_than_it_takes", H # << >>, bad = {},
+              IF bad = {} THEN "" ELSE ToString({<<H[i].pool_id, H[i].in_amt, H[i].in_denom, H[i].out_amt, H[i].out_denom>> : i \in bad})) }
+   ELSE {})
 =============================================================================
